@@ -99,6 +99,10 @@ class BaseElementLocator
 
     void move_elements_forward(std::size_t from, std::size_t to, std::byte* memory_begin) noexcept
     {
+        if (from == element_addresses_.size())
+        {
+            return;
+        }
         const auto diff = detail::move_elements(from, to, memory_begin, *this);
         const auto new_end = std::transform(element_addresses_.begin() + from, element_addresses_.end(),
                                             element_addresses_.begin() + to,
